@@ -49,16 +49,21 @@ def seeded(d):
     return ap
 
 if __name__ == "__main__":
-    sel = sys.argv[1:] 
-    out = []
+    args = sys.argv[1:]; tier = "quick"
+    if "--tier" in args: i = args.index("--tier"); tier = args[i + 1]; del args[i:i + 2]
+    only_seeded = "--seeded" in args; only_own = "--own" in args; sel = [a for a in args if not a.startswith("--")]
+    out = []; resdir = os.path.join(VERIF, "mutants", "results"); os.makedirs(resdir, exist_ok=True)
+    def record(r):
+        r["tier"] = tier; print(json.dumps(r)); sys.stdout.flush(); out.append(r)
+        json.dump(r, open(os.path.join(resdir, r["name"].replace("/", "_") + ("" if tier == "quick" else "." + tier) + ".json"), "w"), indent=1)
     muts = json.load(open(os.path.join(VERIF, "mutants", "mutants.json")))
     for m in muts:
-        if sel and m["id"] not in sel and m["name"] not in sel: continue
-        r = run_one(m["id"], m["name"], own(m)); print(json.dumps(r)); sys.stdout.flush(); out.append(r)
+        if only_seeded or (sel and m["id"] not in sel and m["name"] not in sel): continue
+        record(run_one(m["id"], m["name"], own(m), tier=tier))
     sd = os.path.join(VERIF, "seeded")
     for name in sorted(os.listdir(sd)) if os.path.isdir(sd) else []:
         meta_p = os.path.join(sd, name, "meta.json")
         if not os.path.exists(meta_p): continue
         meta = json.load(open(meta_p))
-        if sel and meta["property"] not in sel and name not in sel: continue
-        r = run_one(meta["property"], "seeded/" + name, seeded(os.path.join(sd, name)), checks=meta.get("checks")); print(json.dumps(r)); sys.stdout.flush(); out.append(r)
+        if only_own or (sel and meta["property"] not in sel and name not in sel): continue
+        record(run_one(meta["property"], "seeded/" + name, seeded(os.path.join(sd, name)), checks=meta.get("checks"), tier=tier))
